@@ -330,3 +330,67 @@ Definition judge_cligraphout (rec : list Z) : Z :=
     end
   | None => 1
   end.
+
+(* ---------- submatrix files written by the tools (-N NON-SUB, -R OUT-REDUCED) ---------- *)
+(* format (doc/file-formats.md): m n r c, then r row indices, then c column indices, indices from 1 *)
+Definition parse_submat_file (bytes : list Z) : option (nat * nat * list nat * list nat) :=
+  match take_ints 4 (tokens bytes) with
+  | Some ([m; n; r; c], rest) =>
+    if size_ok m && size_ok n && size_ok r && size_ok c then
+      match take_ints (Z.to_nat r) rest with
+      | Some (rs, rest2) =>
+        match take_ints (Z.to_nat c) rest2 with
+        | Some (cs, []) =>
+          if forallb (fun x => (1 <=? x) && (x <=? m)) rs && forallb (fun x => (1 <=? x) && (x <=? n)) cs
+          then Some (Z.to_nat m, Z.to_nat n, map (fun x => Z.to_nat (x - 1)) rs, map (fun x => Z.to_nat (x - 1)) cs)
+          else None
+        | _ => None
+        end
+      | None => None
+      end
+    else None
+  | _ => None
+  end.
+
+(* record: tool variant infmt nin inbytes.. rc hasout nout outbytes..
+   tool 0: cmr-tu -N (variants as in VERDICT_TOOLS; variant 2 = partition algorithm, which writes none: known finding);
+   tool 4: cmr-series-parallel -N (variant 1: -b); tool 5: cmr-balanced -N; tool 14: cmr-series-parallel -R (reduced submatrix)
+   0 accepted; 1 malformed record; 370 tool failed; 371 file unreadable / not a submatrix of the input's size;
+   372 the written submatrix is not a violator of the required kind; 373 no file written although the matrix does not have
+   the property (by the oracle); 374 a violator written although the matrix has the property; 375 the reduced submatrix
+   admits a further reduction or is not reachable (tool 14) *)
+Definition judge_clisub (rec : list Z) : Z :=
+  match (tool <- dZ ;; variant <- dZ ;; infmt <- dZ ;; inb <- dlist dZ ;; rc <- dZ ;; hasout <- dbool ;; outb <- dlist dZ ;;
+         dend (tool, variant, infmt, inb, rc, hasout, outb)) rec with
+  | Some ((tool, variant, infmt, inb, rc, hasout, outb), _) =>
+    match parse infmt 1 inb with
+    | TErr => 0
+    | TOk m n M =>
+      let vtool := if tool =? 14 then 4 else tool in
+      match verdict_spec vtool variant m n M with
+      | None => 0
+      | Some (_, has_property) =>
+        if negb (rc =? 0) then 370
+        else if negb hasout then (if has_property || (tool =? 14) then 0 else 373)
+        else match parse_submat_file outb with
+             | None => 371
+             | Some (m', n', rs, cs) =>
+               if negb (Nat.eqb m' m && Nat.eqb n' n) then 371
+               else if tool =? 14 then
+                 (* the reduced submatrix: a submatrix (increasing index lists) that admits no SP reduction, and it is
+                    empty iff the matrix is series-parallel *)
+                 (let t := (variant =? 0) in
+                  let R := submat M rs cs in
+                  if negb (strictly_increasing rs && strictly_increasing cs) then 375
+                  else if negb (Bool.eqb (Nat.eqb (List.length rs + List.length cs) 0) has_property) then 375
+                  else if negb (irreducible t R (all_true (List.length rs)) (all_true (List.length cs))) then 375 else 0)
+               else if has_property then 374
+               else if tool =? 0 then (if check_min_violator m n M rs cs then 0 else 372)
+               else if tool =? 4 then (if check_sp_violator (variant =? 0) m n M rs cs then 0 else 372)
+               else if tool =? 5 then (if check_unbalanced m n M rs cs then 0 else 372)
+               else 0
+             end
+      end
+    end
+  | None => 1
+  end.
